@@ -180,6 +180,9 @@ def run_check(modname, tier='quick', seed=0):
         n_ob += 1
         if o['status'] == 'unsat':
             n_dis += 1
+        elif o['status'] == 'unknown':
+            # the scan does not recognise the (restructured) code: undecided, never an alarm
+            undecided.append(dict(function=o.get('function', '') or o['name'], reason='%s: %s' % (o['name'], o.get('detail', ''))))
         else:
             violations.append(dict(key=o.get('key', o['name']), function=o.get('function', ''), obligation=o['name'],
                                    solver_status=o['status'], solver_detail=o.get('detail'), model=None,
